@@ -39,6 +39,9 @@ VALUES = [0, -1, 2 ** 31, 2 ** 63 - 1, 2 ** 63, 2 ** 64, 2 ** 64 + 1, -2 ** 63 -
 EQ_PAIRS = [(1, True), (0, False), (True, 1), (1, 1.0), (0.0, 0), ([1, 0], [True, False]), ({"a": 1}, {"a": True}), (2 ** 53, float(2 ** 53)), ("1", 1), (None, 0)]
 
 
+OWN_THOROUGH = True
+
+
 def same(a, b):
     if type(a) is not type(b):
         return False
